@@ -49,7 +49,11 @@ TRUSTED = [
     "modelled, not verified: arrays as total functions on Z*Z; determinism of NumPy/SciPy (two runs on equal data give "
     "equal bits); regional_maximum's loop summary: the structure is an abstract offset set",
 ]
-ASSUMPTIONS = ["image and mask have the same 2-d shape; mask is boolean; the smoothing function handed to "
+ASSUMPTIONS = ["the Coq programs of listed_progs read the mask as a BOOLEAN array (x[mask] = boolean-mask indexing, ~mask = "
+               "logical complement); integer 0/1 masks are covered by the two-run oracle and, for the functions that "
+               "handle them, by intmask_handled_progs (integer-mask interpretation); the 23 functions that do not are "
+               "known finding F24",
+               "image and mask have the same 2-d shape; the smoothing function handed to "
                "smooth_with_function_and_mask is pure"]
 EXHAUSTIVE = {"quick": False, "thorough": False}
 
@@ -124,6 +128,19 @@ def build_terms(sources):
         attempt(name, lambda fn=fn, builder=builder: (pins_ok(fn), builder(M))[1], extra)
     for name, fn in Hd.PARAM.items():
         attempt(name, lambda fn=fn: G.translate(M, fn, struct_id=Hd.SSYM), param)
+    # the same functions under the INTEGER-MASK interpretation (mask = integer array with values 0 / non-zero): an
+    # obligation for the functions that handle such masks, documentation of F24 for the others
+    emit.intmask = {}
+    for n in LISTED:
+        store = {}
+        before = len(errors)
+        attempt(n, lambda n=n: G.translate(M, n, callables=("function",) if n == "smooth_with_function_and_mask" else (),
+                                          int_mask=True), store)
+        emit.intmask[n] = store[n]
+        if n in F24_FUNCS:
+            del errors[before:]                      # no obligation there
+        else:
+            errors[before:] = [e + " (integer-mask interpretation)" for e in errors[before:]]
     emit.not_claimed = {}
     for n, why in NOT_CLAIMED.items():
         try:
@@ -185,6 +202,22 @@ def emit(terms, rejected, extra=None):
             out.append("Definition %s : nat := %d." % (ident, i))
     out.append("")
     out.extend(body)
+    im = getattr(emit, "intmask", {})
+    if im:
+        out.append("")
+        out.append("(* ---- the INTEGER-MASK interpretation: the mask argument is an integer array with values 0 / non-zero, so that")
+        out.append("   x[mask] is integer fancy indexing and ~mask a bitwise complement unless the code looks at truthiness.  The")
+        out.append("   functions that handle such masks must be accepted under this reading too; the others are finding F24. *)")
+        for name in LISTED:
+            out.append("Definition prog_%s_intmask : prog :=\n  %s." % (name, em.prog(im[name])))
+        handled = [n for n in LISTED if n not in F24_FUNCS]
+        out.append("Definition intmask_handled_progs : list prog :=\n  [%s]." % "; ".join("prog_%s_intmask" % n for n in handled))
+        out.append("Lemma intmask_handled_accepted : forallb accepts intmask_handled_progs = true.\nProof. vm_compute. reflexivity. Qed.")
+        out.append("(* F24 (known finding), statically: verdicts of the checker on %s - computed, not an obligation *)"
+                   % ", ".join(n for n in LISTED if n in F24_FUNCS))
+        out.append("Definition f24_intmask_progs : list prog :=\n  [%s]." % "; ".join(
+            "prog_%s_intmask" % n for n in LISTED if n in F24_FUNCS))
+        out.append("Definition f24_static_verdicts : list bool := Eval vm_compute in map accepts f24_intmask_progs.")
     for name, why in getattr(emit, "not_claimed", {}).items():
         out.append("(* NOT CLAIMED  %s  (%s): %s *)" % (name, why[0], why[1].replace("(*", "( *").replace("*)", "* )")))
     out.append("Definition listed_progs : list prog :=\n  [%s]." % "; ".join("prog_" + n for n in LISTED))
